@@ -784,7 +784,7 @@ fn gen_val(t: &mut Tape, kind: &str) -> Val {
             Val::OOrigin(Some((cat, o)))
         }
         "FORWARDED" => Val::Str(Some(t.pick(&["no", "not-needed", "https://example.com/pr/1", "yes"]).to_string())),
-        "APPLIED" => Val::Str(Some(t.pick(&["commit:abc123", "2.0, https://example.com/c/1", "1.2"]).to_string())),
+        "APPLIED" => Val::Str(Some(t.pick(&["commit:abc123", "2.0, https://example.com/c/1", "1.2", "1.2, commit:0123abcd"]).to_string())),
         k => panic!("harness: unknown kind {}", k),
     }
 }
